@@ -334,7 +334,8 @@ def check_c18(ctx, R):
     for n in walk_local(ci.node):
         if isinstance(n, ast.If) and isinstance(n.test, ast.Compare) and isinstance(n.test.left, ast.Constant):
             cat = n.test.left.value
-            subs = [norm(x.slice) for s in n.body for x in ast.walk(s) if isinstance(x, ast.Subscript) and norm(x.value) == "categories"]
+            dvar = norm(n.test.comparators[0].func.value) if isinstance(n.test.comparators[0], ast.Call) and isinstance(n.test.comparators[0].func, ast.Attribute) else norm(n.test.comparators[0])
+            subs = [norm(x.slice) for s in n.body for x in ast.walk(s) if isinstance(x, ast.Subscript) and norm(x.value) == dvar]
             if subs and all(s == repr(cat) for s in subs):
                 R.ok("B5", "branch %s writes categories[%s]" % (cat, cat), ci.loc(n))
             else:
